@@ -2,8 +2,13 @@
 
 package reader
 
+import "github.com/milvus-io/milvus/pkg/mq/msgstream"
+
 // verifYield is a no-op unless built with the verif tag (see verif_on.go).
 func verifYield(point string, channel string, collectionID int64) {}
 
 // verifNote is a no-op unless built with the verif tag; it never blocks.
 func verifNote(point string, channel string, a uint64, ref any) {}
+
+// verifBarrierKey is only meaningful with the verif tag.
+func verifBarrierKey(m msgstream.TsMsg) int64 { return 0 }
